@@ -37,7 +37,8 @@
 (*              real code returns at the first failing file                 *)
 (*              (StopAtFailure = TRUE); the other value is a legitimate     *)
 (*              refactor the contract must also accept.                     *)
-(* Known deviation kept as a named disjunct: D16 (SkipPackageWithoutGoFiles)*)
+(* No known deviation at present (D16 was repaired by ad32862); `deviated`   *)
+(* stays as the hook for the next one.                                      *)
 (***************************************************************************)
 EXTENDS Integers, Sequences, FiniteSets, TLC, Json
 
@@ -99,7 +100,9 @@ InputClasses == {"unknown-template", "unknown-formatter", "unknown-key", "unknow
 PhaseOf(c) ==
   CASE c \in {"unknown-key", "unknown-key-pkgstruct", "unknown-key-ifacestruct"} -> "load"     \* config.go:215 ErrorUnused
     [] c = "subpkg-regex" -> "init"                                                               \* config.go:387 ShouldExcludeSubpkg
-    [] c \in {"pkg-typeerr", "pkg-parseerr", "pkg-importerr"} -> "parse"                          \* parse.go:56-61
+    [] c \in {"pkg-typeerr", "pkg-parseerr", "pkg-importerr",
+              "pkg-missing-all", "pkg-missing-regex", "pkg-missing-listed"} -> "parse"             \* parse.go:53-70 (a package that
+                                                                                                  \* cannot be found is an error: ad32862)
     [] c \in {"include-regex", "exclude-regex"} -> "select"                                       \* config.go:524-539
     [] c = "cyclic" -> "resolve"                                                                  \* config.go:711-718
     [] c \in {"conflict-srcpkg", "conflict-pkgname", "conflict-template"} -> "collect"            \* mockery.go:147-166
@@ -111,8 +114,8 @@ StageOfClass(c) ==
     [] c = "unknown-formatter" -> "format"       \* template_generator.go:199
     [] OTHER -> "-"
 PkgMissing(c) == c \in {"pkg-missing-all", "pkg-missing-regex", "pkg-missing-listed"}
-\* D16: these are skipped silently and nothing else reports them
-D16Classes == {"pkg-missing-all", "pkg-missing-regex"}
+\* classes the code-shaped layer knowingly handles against the contract (none at present)
+DeviationClasses == {}
 
 First == Files[1]
 Last  == Files[Len(Files)]
@@ -202,9 +205,7 @@ PrePhase ==
      ELSE /\ LET last == ph = Len(Phases) \/ w.fault.kind # "input" IN      \* phases without an invalid input do nothing here
              /\ ph' = IF last THEN Len(Phases) + 1 ELSE ph + 1
              /\ IF last THEN pc' = "loop" /\ pending' = Collected(w) ELSE UNCHANGED <<pc, pending>>
-          \* D16 (parse.go:53-55): a package without Go files -- also one that does not exist -- is skipped before
-          \* its load errors are looked at
-          /\ deviated' = (deviated \/ (p = "parse" /\ w.fault.kind = "input" /\ w.fault.class \in D16Classes))   \* SkipPackageWithoutGoFiles
+          /\ deviated' = (deviated \/ (w.fault.kind = "input" /\ w.fault.class \in DeviationClasses))
           /\ UNCHANGED <<w, cur, step, oks, fs, written, failed, anyfail, exit, order>>
 
 \* top of the per-file loop (mockery.go:309-338); NewTemplateGenerator -> findPkgPath creates the output directory
@@ -294,7 +295,7 @@ ExitClass == IF exit = 0 THEN "zero" ELSE "nonzero"
 MeetsContract == /\ \A f \in FileSet : Outcome(f) \in AllowedFinal(w, f)
                  /\ ExitClass = ExpectExit(w)
 ImplMeetsContract == pc = "done" /\ ~deviated => MeetsContract
-\* D16 really is one whenever nothing else makes the run fail
+\* a known deviation really is one whenever nothing else makes the run fail
 DeviationsAreViolations == pc = "done" /\ deviated /\ failed = {} => ~MeetsContract
 Terminates == pc = "done" => exit \in {0, 1}
 
@@ -308,7 +309,7 @@ NeverWriteAfterFailure == ~(\E f \in written : failed # {} /\ ~StopAtFailure)
 (* Export.  One CASE per world with the contract's expectation; with EmitBeh also one BEH per terminal state of
    the code-shaped model (its prediction for that file order). *)
 CaseRec(wd) == [world |-> wd, expect |-> Expectation(wd),
-                impl_deviation |-> IF wd.fault.kind = "input" /\ wd.fault.class \in D16Classes THEN "D16" ELSE "-"]
+                impl_deviation |-> IF wd.fault.kind = "input" /\ wd.fault.class \in DeviationClasses THEN "known" ELSE "-"]
 EmitCase == IF pc = "pre" /\ ph = 1 THEN PrintT(<<"CASE", ToJson(CaseRec(w))>>) ELSE TRUE
 EmitBeh == /\ EmitCase
            /\ IF pc = "done" THEN PrintT(<<"BEH", ToJson([world |-> w, order |-> order, written |-> written, failed |-> failed,
